@@ -1,6 +1,7 @@
 """Sensitivity self-test (thorough tier): every stored mutant of a property — a realistic, compiling edit that breaks one rule
 instance — is applied to a scratch copy of /repo's working tree (outside /repo and /verif), facts are rebuilt for it and the
-property's rules must report a finding whose key matches the mutant's expectation.  The scratch copy and its build output
+property's rules must report a finding whose key matches the mutant's expectation.  Variants marked "benign" (behaviour-preserving
+refactorings of an anchor) must produce no finding at all.  The scratch copy and its build output
 are removed afterwards.  A rule that no longer fires on its own mutant is reported as a broken check."""
 import glob, json, os, re, shutil, subprocess, tempfile, time
 from . import build, facts, report
@@ -59,6 +60,10 @@ def run(pid, mod, chk, max_mutants=None):
                 if os.path.exists(report.KNOWN):
                     known = {(k["property"], k["key"]) for k in json.load(open(report.KNOWN)).get("known", [])}
                 keys = [f["key"] for f in c2.findings if (pid, f["key"]) not in known]
+                if m["meta"].get("benign"):
+                    chk.ob("self-test-benign-variant-silent", m["name"], not keys, "behaviour-preserving variant must not be reported, got %s" % keys[:4], key="selftest-noisy|%s" % m["name"])
+                    chk.sample({"benign_variant": m["name"], "reported": keys[:2], "seconds": round(time.time() - t0, 1)})
+                    continue
                 hit = [k for k in keys if re.search(m["expect"], k)]
                 chk.ob("self-test-mutant-detected", m["name"], bool(hit), "expected a finding matching /%s/, got %s" % (m["expect"], keys[:4]), key="selftest-blind|%s" % m["name"])
                 chk.sample({"mutant": m["name"], "reported": hit[:2], "seconds": round(time.time() - t0, 1)})
